@@ -41,6 +41,8 @@ type PkgDef struct {
 	// and the native replay. A pattern that is not found exactly Count times
 	// makes the run inconclusive.
 	Rewrites []Rewrite
+	// Raw packages get no support/test templates: their overlay comes from Prepare.
+	Raw bool
 }
 
 // Rewrite is one textual substitution in a file of the package.
@@ -61,6 +63,7 @@ type CheckDef struct {
 	Level     string
 	Prepare   func(c *CheckDef, tier string) (extraOverlay map[string][]byte, extraPatterns []string, cleanup func(), err error)
 	Deadline  func(tier string) time.Duration
+	Gen       *GenInfo
 }
 
 func main() {
@@ -159,6 +162,9 @@ func buildOverlay(c *CheckDef, withTest bool, only *PkgDef) (map[string][]byte, 
 	ov := map[string][]byte{}
 	for i := range c.Pkgs {
 		p := &c.Pkgs[i]
+		if p.Raw {
+			continue
+		}
 		var files []string
 		for _, f := range p.Files {
 			files = append(files, filepath.Join(verifDir, "harness", f))
@@ -273,28 +279,35 @@ func runCheck(c *CheckDef, tier string, workers int, only, solver string, seed i
 	res := &Result{SolverName: solver + " -in (one process per worker)"}
 	incon := func(f string, a ...interface{}) { res.Inconclusive = append(res.Inconclusive, fmt.Sprintf(f, a...)) }
 
-	overlay, err := buildOverlay(c, false, nil)
-	if err != nil {
-		incon("overlay: %v", err)
-		return res
-	}
-	var patterns []string
-	for _, p := range c.Pkgs {
-		patterns = append(patterns, "./"+p.Dir)
-	}
 	var cleanup func()
+	var prepOverlay map[string][]byte
+	var prepPatterns []string
 	if c.Prepare != nil {
 		extra, extraPat, cl, err := c.Prepare(c, tier)
 		if err != nil {
 			incon("prepare: %v", err)
 			return res
 		}
-		cleanup = cl
-		for k, v := range extra {
-			overlay[k] = v
-		}
-		patterns = append(patterns, extraPat...)
+		cleanup, prepOverlay, prepPatterns = cl, extra, extraPat
 	}
+	overlay, err := buildOverlay(c, false, nil)
+	if err != nil {
+		incon("overlay: %v", err)
+		if cleanup != nil {
+			cleanup()
+		}
+		return res
+	}
+	var patterns []string
+	for _, p := range c.Pkgs {
+		if !p.Raw {
+			patterns = append(patterns, "./"+p.Dir)
+		}
+	}
+	for k, v := range prepOverlay {
+		overlay[k] = v
+	}
+	patterns = append(patterns, prepPatterns...)
 	if cleanup != nil {
 		defer cleanup()
 	}
@@ -437,13 +450,8 @@ func runCheck(c *CheckDef, tier string, workers int, only, solver string, seed i
 			incon("overlay: %v", err)
 			continue
 		}
-		if c.Prepare != nil {
-			// generated code etc. must also be visible to the native build
-			for k, v := range overlay {
-				if _, ok := ov[k]; !ok && !strings.Contains(k, "zz_verif_") {
-					ov[k] = v
-				}
-			}
+		for k, v := range prepOverlay {
+			ov[k] = v
 		}
 		var cases []sym.NativeCase
 		for _, w := range g.wits {
